@@ -207,6 +207,22 @@ def shift_cases(draw, tier):
     return c
 
 
+_SPECIAL_VALUES = sorted({sp + k for sp in gen.FACE_SPECIALS for k in (-2, -1, 0, 1, 3)})
+
+
+def special_size(tier):
+    return len(_SPECIAL_VALUES) ** 2
+
+
+def special_case(tier, idx):
+    n = len(_SPECIAL_VALUES)
+    a, b = _SPECIAL_VALUES[idx % n], _SPECIAL_VALUES[idx // n]
+    lat = {'family': 'triclinic', 'orient': 'lower', 'params': [5.0, 6.0, 7.0, 80.0, 95.0, 70.0], 'matrix': oracle.matrix_from_params_lower(5.0, 6.0, 7.0, 80.0, 95.0, 70.0).tolist()}
+    # three frames so that the slice clause runs; the pair sits on every axis in turn
+    coords = [[[a, b, a]], [[b, a, b]], [[a, a, b]]]
+    return {'lattice': lat, 'symbols': ['Li'], 'species_kind': 'Species', 'coords': coords, 'time_step': 1e-15, 'temperature': 300.0}
+
+
 SUBS = [
     Sub(name='wrap', kind='hyp', run=run_wrap, strategy=wrap_cases,
         rule='arbitrary coordinates in [-3,4] with face specials (0, 1, -1e-17, 1-1e-16, 2^-60, k/n, special+integer) in all lattices; positions in [0,1), equal input mod 1, displacement/positions round trip',
@@ -214,4 +230,7 @@ SUBS = [
     Sub(name='shift', kind='hyp', run=run_shift, strategy=shift_cases,
         rule='unwrapped paths with |step| < 1/2 given wrapped or unwrapped, compared with the same trajectory plus integer lattice shifts (per coordinate / per frame / single); cumulative displacements, distances, MSD, diffusivity, speed, centre of mass',
         n={'quick': 300, 'thorough': 4000}, shards={'quick': 6, 'thorough': 16}),
+    Sub(name='enum-face-specials', kind='enum', run=run_wrap, size=special_size, case_at=special_case, exhaustive=True,
+        rule='complete enumeration: every ordered pair of the face-special coordinates (0, 1, -1e-17, 1e-17, 1-1e-16, 1-2^-53, +-2^-60, 0.5, k/n, each also shifted by -2, -1, 1, 3 cells) as consecutive frames of one atom in a triclinic cell',
+        shards={'quick': 16, 'thorough': 16}),
 ]
